@@ -2,10 +2,15 @@
 
     Theorems over model/Image.v.  [H] is the digest function (SHA-1 is not modelled;
     where a statement needs H to separate blobs it says so), [fl] the rounding of one
-    binary64 operation.  A history is any list of operations (new slide, other
-    relationships on a slide, image addition on a slide as picture / placeholder
-    picture / poster frame or icon, save-and-reopen), run from any state satisfying the
-    invariant; there is no bound on its length or on the number of images or slides. *)
+    binary64 operation.  A history is any list of operations: new slide, other
+    relationships on a slide, image addition on a slide as picture / placeholder picture /
+    poster frame or icon, REMOVAL of a slide (its p:sldId and the presentation relationship)
+    or of one relationship of a slide (after the last element using it went), and
+    save-and-reopen; run from any state satisfying the invariant; there is no bound on its
+    length or on the number of images or slides.  The state holds every part OBJECT, also
+    the ones no relationship leads to any more; the store is what walking the
+    relationships reaches ([store]: Package.iter_parts, [index]: what _find_by_sha1
+    iterates), computed from the relationships at every look-up. *)
 From Coq Require Import QArith Qabs Qround.
 From V.lib Require Import Prelude.
 From V.model Require Import PackUri Image.
@@ -15,106 +20,170 @@ Local Open Scope Z_scope.
 
 (* ------------------------------------------------------------------ the invariant *)
 
-(** part names are unique, no two indexed image parts have the same digest, and the
-    class of every part is the one the part factory selects for its content type (true
-    of any package just loaded, and of the empty store) *)
+(** object identities are unique and below the counter; among the parts the package
+    REACHES names are unique; among the image parts the look-up iterates digests are
+    unique; the class of every part is the one the part factory selects for its content
+    type; every image relationship of a slide leads to an existing object (true of any
+    package just loaded, and of the empty store) *)
 Theorem C15_invariant_meaning : forall H st,
   Inv H st <->
-  NoDup (map p_name (st_parts st)) /\
-  NoDup (map (digest H) (filter visible (st_parts st))) /\
-  Forall (fun p => p_cls p = ct_is_imagepart (p_ct p)) (st_parts st).
+  NoDup (map p_id (st_heap st)) /\
+  Forall (fun p => (p_id p < st_next st)%N) (st_heap st) /\
+  NoDup (map p_name (store st)) /\
+  NoDup (map (digest H) (index st)) /\
+  Forall (fun p => p_cls p = ct_is_imagepart (p_ct p)) (st_heap st) /\
+  (forall i, In i (targets (st_slides st)) -> In i (map p_id (st_heap st))).
 Proof. exact inv_meaning. Qed.
 Print Assumptions C15_invariant_meaning.
 
+(** kept by every history of additions, removals and re-openings: at every point no two
+    reachable parts share a name and no two indexed parts share a digest *)
 Theorem C15_invariant_kept : forall H fl ops st, Inv H st -> Inv H (final H fl st ops).
 Proof. exact (fun H fl ops st => run_inv H fl ops st). Qed.
 Print Assumptions C15_invariant_kept.
 
+(* ------------------------------------------------------------------ the look-up *)
+
+(** _find_by_sha1 answers with a part the relationships lead to (one the walk iterates,
+    hence one the package reaches and saves) holding that digest, or with none when no
+    such part holds it; an object nothing leads to is never the answer *)
+Theorem C15_lookup_reachable : forall H st d,
+  match find_by_digest H d st with
+  | Some p => In p (index st) /\ In p (store st) /\ digest H p = d
+  | None => forall p, In p (index st) -> digest H p <> d
+  end.
+Proof. exact lookup_reachable. Qed.
+Print Assumptions C15_lookup_reachable.
+
+(** an object nothing leads to stays out for the rest of any history: the package never
+    reaches it again, so it is not looked up, not related to and not saved *)
+Theorem C15_orphan_stays : forall H fl st ops p,
+  Inv H st -> In p (st_heap st) -> reachable (st_slides st) p = false ->
+  forall q, In q (st_heap (final H fl st ops)) -> p_id q = p_id p ->
+            reachable (st_slides (final H fl st ops)) q = false.
+Proof. exact orphan_stays. Qed.
+Print Assumptions C15_orphan_stays.
+
+(** a removal takes away relationships and nothing else: no object is altered, and what
+    the package reaches / the look-up iterates can only shrink *)
+Theorem C15_removal : forall H fl st o st' r,
+  Inv H st -> step H fl st o = (st', r) -> removal o = true ->
+  st_heap st' = st_heap st /\
+  (forall q, In q (store st') -> In q (store st)) /\
+  (forall q, In q (index st') -> In q (index st)).
+Proof. exact removal_effect. Qed.
+Print Assumptions C15_removal.
+
 (* ------------------------------------------------------------------ stored once *)
 
-(** If operation number i of a history added image im and reported the part (name, ext,
-    content type), then at the end of the history -- whatever else happened before or
-    after, on whatever slides, including re-opening -- the store has an indexed part of
-    that name, extension and content type whose digest is that of im, and it is the only
-    indexed part with that digest. *)
-Theorem C15_once : forall H fl st ops i im name e ct,
-  Inv H st -> stored_at H fl st ops i im name e ct ->
-  let ps := st_parts (final H fl st ops) in
-  exists p, In p ps /\ visible p = true /\ p_name p = name /\ p_ct p = ct /\ ext (p_name p) = e /\
+(** If operation number i of a history added image im and was answered with the part
+    object pid under (name, ext, content type), and at the end of the history -- whatever
+    else happened before or after, on whatever slides, including removals and re-opening
+    -- some image relationship of a slide still leads to that object, then the package
+    reaches a part of that identity, name, extension and content type whose digest is that
+    of im; it is the only indexed part with that digest and the only reachable part of
+    that name.  (Applied to a prefix of the history this speaks about every moment.) *)
+Theorem C15_once : forall H fl st ops i im pid name e ct,
+  Inv H st -> stored_at H fl st ops i im pid name e ct -> still_related H fl st ops pid ->
+  let fin := final H fl st ops in
+  exists p, In p (index fin) /\ In p (store fin) /\
+            p_id p = pid /\ p_name p = name /\ p_ct p = ct /\ ext (p_name p) = e /\
             digest H p = H (i_blob im) /\
-            forall q, In q ps -> visible q = true -> digest H q = H (i_blob im) -> q = p.
+            (forall q, In q (index fin) -> digest H q = H (i_blob im) -> q = p) /\
+            (forall q, In q (store fin) -> p_name q = name -> q = p).
 Proof. exact once. Qed.
 Print Assumptions C15_once.
 
-(** the single-step form: adding bytes with the same digest again changes nothing and
-    returns the same part *)
-Theorem C15_once_step : forall H ps im im' ps1 p,
-  get_or_add H ps im = Ok (ps1, p) -> H (i_blob im') = H (i_blob im) ->
-  get_or_add H ps1 im' = Ok (ps1, p).
-Proof. exact get_or_add_twice. Qed.
+(** whether or not anything still leads to it, the object is never altered and its
+    identity is never given to another object *)
+Theorem C15_immutable : forall H fl st ops i im pid name e ct,
+  Inv H st -> stored_at H fl st ops i im pid name e ct ->
+  forall q, In q (st_heap (final H fl st ops)) -> p_id q = pid ->
+    p_name q = name /\ p_ct q = ct /\ ext (p_name q) = e /\ p_cls q = true /\ digest H q = H (i_blob im).
+Proof. exact immutable. Qed.
+Print Assumptions C15_immutable.
+
+(** the single-step form: right after an addition the look-up finds that object, and
+    adding bytes with the same digest again changes nothing and returns the same object *)
+Theorem C15_once_step : forall H fl st s im u st1 pid name rid e ct a b,
+  Inv H st -> step H fl st (OImage s im u) = (st1, Ok (OutImg pid name rid e ct a b)) ->
+  exists p, p_id p = pid /\ find_by_digest H (H (i_blob im)) st1 = Some p /\
+    forall im', H (i_blob im') = H (i_blob im) -> get_or_add H st1 im' = Ok (st_heap st1, p).
+Proof. exact once_step. Qed.
 Print Assumptions C15_once_step.
 
-Theorem C15_same_part : forall H fl st ops i j im im' name e ct name' e' ct',
+Theorem C15_same_part : forall H fl st ops i j im im' pid pid' name e ct name' e' ct',
   Inv H st ->
-  stored_at H fl st ops i im name e ct -> stored_at H fl st ops j im' name' e' ct' ->
-  H (i_blob im) = H (i_blob im') -> name = name' /\ e = e' /\ ct = ct'.
+  stored_at H fl st ops i im pid name e ct -> stored_at H fl st ops j im' pid' name' e' ct' ->
+  still_related H fl st ops pid -> still_related H fl st ops pid' ->
+  H (i_blob im) = H (i_blob im') -> pid = pid' /\ name = name' /\ e = e' /\ ct = ct'.
 Proof. exact same_part. Qed.
 Print Assumptions C15_same_part.
 
-(** different bytes get different parts under different names, provided the digest
-    separates them *)
-Theorem C15_distinct : forall H fl st ops i j im im' name e ct name' e' ct',
+(** different bytes are in different objects under different names (among the parts
+    something still leads to), provided the digest separates them *)
+Theorem C15_distinct : forall H fl st ops i j im im' pid pid' name e ct name' e' ct',
   Inv H st ->
-  stored_at H fl st ops i im name e ct -> stored_at H fl st ops j im' name' e' ct' ->
+  stored_at H fl st ops i im pid name e ct -> stored_at H fl st ops j im' pid' name' e' ct' ->
+  still_related H fl st ops pid -> still_related H fl st ops pid' ->
   i_blob im <> i_blob im' -> (H (i_blob im) = H (i_blob im') -> i_blob im = i_blob im') ->
-  name <> name'.
-Proof. exact (fun H fl st ops i j im im' name e ct name' e' ct' I S1 S2 Hb Hsep =>
-               distinct H fl st ops i j im im' name e ct name' e' ct' I S1 S2 (fun E => Hb (Hsep E))). Qed.
+  pid <> pid' /\ name <> name'.
+Proof. exact (fun H fl st ops i j im im' pid pid' name e ct name' e' ct' I S1 S2 L1 L2 Hb Hsep =>
+               distinct H fl st ops i j im im' pid pid' name e ct name' e' ct' I S1 S2 L1 L2 (fun E => Hb (Hsep E))). Qed.
 Print Assumptions C15_distinct.
 
 (** the stored bytes are the bytes given (H separating them from any other blob) *)
-Theorem C15_bytes : forall H fl st ops i im name e ct,
-  Inv H st -> stored_at H fl st ops i im name e ct ->
+Theorem C15_bytes : forall H fl st ops i im pid name e ct,
+  Inv H st -> stored_at H fl st ops i im pid name e ct -> still_related H fl st ops pid ->
   (forall b, H b = H (i_blob im) -> b = i_blob im) ->
-  exists p, In p (st_parts (final H fl st ops)) /\ p_name p = name /\ p_blob p = i_blob im.
+  exists p, In p (store (final H fl st ops)) /\ p_id p = pid /\ p_name p = name /\ p_blob p = i_blob im.
 Proof. exact bytes. Qed.
 Print Assumptions C15_bytes.
 
-(** a newly created part holds exactly the bytes given, under a name no reachable part
-    has, with the extension and content type the tables give for the Pillow format *)
-Theorem C15_new_part : forall H ps im ps' p,
-  get_or_add H ps im = Ok (ps', p) -> find_by_digest H (H (i_blob im)) ps = None ->
-  p_blob p = i_blob im /\ ~ In (p_name p) (map p_name ps) /\
+(** a newly created part holds exactly the bytes given, under a name no REACHABLE part has
+    -- the first free number among the reachable parts, so the name of a part nothing
+    leads to any more is free again --, with the extension and content type the tables give
+    for the Pillow format *)
+Theorem C15_new_part : forall H st im hp' p,
+  get_or_add H st im = Ok (hp', p) -> find_by_digest H (H (i_blob im)) st = None ->
+  p_blob p = i_blob im /\ ~ In (p_name p) (map p_name (store st)) /\
   exists e, image_ext (i_blob im) (i_meta im) = Ok e /\ ext (p_name p) = e /\
+            p_name p = image_partname (next_image_idx (map p_name (store st))) e /\
             assoc e image_content_types = Some (p_ct p).
 Proof. exact new_part_type. Qed.
 Print Assumptions C15_new_part.
 
-(** nothing that was in the store is changed or lost by any history *)
+(** a history without removals loses nothing the package reached *)
 Theorem C15_preserved : forall H fl st ops q,
-  Inv H st -> In q (st_parts st) -> In q (st_parts (final H fl st ops)).
+  Inv H st -> forallb (fun o => negb (removal o)) ops = true ->
+  In q (store st) -> In q (store (final H fl st ops)).
 Proof. exact preserved. Qed.
 Print Assumptions C15_preserved.
 
-(** the relationship a picture uses targets the part that holds its image *)
-Theorem C15_rel_targets_part : forall H fl st s im u st' name rid e ct a b,
-  step H fl st (OImage s im u) = (st', Ok (OutImg name rid e ct a b)) ->
-  exists rs', nth_error (st_slides st') s = Some rs' /\ In (rid, Some name) rs'.
+(** the relationship a picture uses targets the object that holds its image, and that
+    object is among the parts the look-up iterates *)
+Theorem C15_rel_targets_part : forall H fl st s im u st' pid name rid e ct a b,
+  Inv H st -> step H fl st (OImage s im u) = (st', Ok (OutImg pid name rid e ct a b)) ->
+  (exists rs', nth_error (st_slides st') s = Some rs' /\ In (rid, Some pid) rs') /\
+  exists p, In p (index st') /\ p_id p = pid /\ p_name p = name.
 Proof. exact rel_targets_part. Qed.
 Print Assumptions C15_rel_targets_part.
 
 (* ------------------------------------------------------------------ save and re-open *)
 
-(** save + load returns names, content types and bytes unchanged (C01) and chooses each
-    part's class from its content type: under the invariant that is the identity on the
-    store, so the digest index rebuilt after re-opening answers every query as before *)
+(** save writes the parts the package reaches and load returns their names, content types
+    and bytes unchanged (C01), choosing each part's class from its content type: the objects
+    nothing leads to are gone, what the package reaches and what the look-up iterates are
+    the same, so the digest index rebuilt after re-opening answers every query as before *)
 Theorem C15_reopen : forall H fl st, Inv H st ->
-  step H fl st OReload = (st, Ok OutUnit) /\
-  forall d, find_by_digest H d (map reload_part (st_parts st)) = find_by_digest H d (st_parts st).
+  let st' := fst (step H fl st OReload) in
+  st_heap st' = store st /\ st_slides st' = st_slides st /\
+  store st' = store st /\ index st' = index st /\
+  forall d, find_by_digest H d st' = find_by_digest H d st.
 Proof. exact reopen. Qed.
 Print Assumptions C15_reopen.
 
-Theorem C15_reopen_new_part : forall ps im p, new_image_part ps im = Ok p -> reload_part p = p.
+Theorem C15_reopen_new_part : forall st im p, new_image_part st im = Ok p -> reload_part p = p.
 Proof. exact reopen_new. Qed.
 Print Assumptions C15_reopen_new_part.
 
@@ -302,31 +371,96 @@ Definition ex_ops : list op :=
 Example C15_ex_history :
   snd (run (fun b => b) fl64 empty_state ex_ops) =
   [ Ok OutUnit;
-    Ok (OutImg (image_partname 1 [112; 110; 103]%N) 2 [112; 110; 103]%N
+    Ok (OutImg 1 (image_partname 1 [112; 110; 103]%N) 2 [112; 110; 103]%N
           [105; 109; 97; 103; 101; 47; 112; 110; 103]%N 88900 63500);
     Ok OutUnit;
-    Ok (OutImg (image_partname 2 [106; 112; 103]%N) 2 [106; 112; 103]%N
+    Ok (OutImg 2 (image_partname 2 [106; 112; 103]%N) 2 [106; 112; 103]%N
           [105; 109; 97; 103; 101; 47; 106; 112; 101; 103]%N 914400 1219200);
-    Ok (OutImg (image_partname 1 [112; 110; 103]%N) 3 [112; 110; 103]%N
+    Ok (OutImg 1 (image_partname 1 [112; 110; 103]%N) 3 [112; 110; 103]%N
           [105; 109; 97; 103; 101; 47; 112; 110; 103]%N 88900 63500);
     Ok OutUnit;
-    Ok (OutImg (image_partname 1 [112; 110; 103]%N) 2 [112; 110; 103]%N
+    Ok (OutImg 1 (image_partname 1 [112; 110; 103]%N) 2 [112; 110; 103]%N
           [105; 109; 97; 103; 101; 47; 112; 110; 103]%N 0 0);
-    Ok (OutImg (image_partname 2 [106; 112; 103]%N) 3 [106; 112; 103]%N
+    Ok (OutImg 2 (image_partname 2 [106; 112; 103]%N) 3 [106; 112; 103]%N
           [105; 109; 97; 103; 101; 47; 106; 112; 101; 103]%N 3 4) ]
-  /\ length (st_parts (final (fun b => b) fl64 empty_state ex_ops)) = 2%nat.
+  /\ length (store (final (fun b => b) fl64 empty_state ex_ops)) = 2%nat.
 Proof. vm_compute. split; reflexivity. Qed.
 
 (** so the hypotheses of C15_once / C15_same_part / C15_distinct are met *)
 Example C15_ex_stored_at :
-  stored_at (fun b => b) fl64 empty_state ex_ops 1 ex_png (image_partname 1 [112; 110; 103]%N)
+  stored_at (fun b => b) fl64 empty_state ex_ops 1 ex_png 1 (image_partname 1 [112; 110; 103]%N)
     [112; 110; 103]%N [105; 109; 97; 103; 101; 47; 112; 110; 103]%N /\
-  stored_at (fun b => b) fl64 empty_state ex_ops 6 ex_png (image_partname 1 [112; 110; 103]%N)
+  stored_at (fun b => b) fl64 empty_state ex_ops 6 ex_png 1 (image_partname 1 [112; 110; 103]%N)
     [112; 110; 103]%N [105; 109; 97; 103; 101; 47; 112; 110; 103]%N /\
-  stored_at (fun b => b) fl64 empty_state ex_ops 3 ex_jpg (image_partname 2 [106; 112; 103]%N)
-    [106; 112; 103]%N [105; 109; 97; 103; 101; 47; 106; 112; 101; 103]%N.
+  stored_at (fun b => b) fl64 empty_state ex_ops 3 ex_jpg 2 (image_partname 2 [106; 112; 103]%N)
+    [106; 112; 103]%N [105; 109; 97; 103; 101; 47; 106; 112; 101; 103]%N /\
+  still_related (fun b => b) fl64 empty_state ex_ops 1 /\ still_related (fun b => b) fl64 empty_state ex_ops 2.
 Proof.
-  split; [|split]; unfold stored_at; do 5 eexists; (split; [vm_compute; reflexivity|vm_compute; reflexivity]).
+  split; [|split; [|split; [|split]]];
+    try (unfold stored_at; do 5 eexists; (split; [vm_compute; reflexivity|vm_compute; reflexivity]));
+    unfold still_related; vm_compute; tauto.
+Qed.
+
+(** REMOVAL followed by re-addition.  Slide 0 gets the PNG twice and is deleted: the PNG
+    part is still an object (identity 1) but nothing leads to it and its number is free.
+    The JPEG added next takes number 1.  The PNG added again is NOT answered with the
+    orphaned object: the look-up walks the relationships, finds no part with those bytes
+    and a new object (identity 3) is made under number 2.  Then the relationship of the
+    JPEG is dropped (the picture element went): number 1 is free once more and a GIF
+    takes it.  After re-opening the orphans are gone and everything answers as before. *)
+Definition ex_gif : image :=
+  mkImage [71; 73; 70; 56; 57; 97; 3]%N (Meta (Some [71; 73; 70]%N) 4 4 PNoTuple false).
+Definition ex_ops_removal : list op :=
+  [OAddSlide; OAddSlide; OImage 0 ex_png (UPicture None None); OImage 0 ex_png URelOnly; ODelSlide 0;
+   OImage 0 ex_jpg URelOnly; OImage 0 ex_png URelOnly; ODropRel 0 2; OImage 0 ex_gif URelOnly; OReload;
+   OImage 0 ex_png URelOnly; OImage 0 ex_jpg URelOnly].
+
+Example C15_ex_removal :
+  let r := run (fun b => b) fl64 empty_state ex_ops_removal in
+  snd r =
+  [ Ok OutUnit; Ok OutUnit;
+    Ok (OutImg 1 (image_partname 1 [112; 110; 103]%N) 2 [112; 110; 103]%N
+          [105; 109; 97; 103; 101; 47; 112; 110; 103]%N 88900 63500);
+    Ok (OutImg 1 (image_partname 1 [112; 110; 103]%N) 2 [112; 110; 103]%N
+          [105; 109; 97; 103; 101; 47; 112; 110; 103]%N 0 0);
+    Ok (OutStore []);
+    Ok (OutImg 2 (image_partname 1 [106; 112; 103]%N) 2 [106; 112; 103]%N
+          [105; 109; 97; 103; 101; 47; 106; 112; 101; 103]%N 0 0);
+    Ok (OutImg 3 (image_partname 2 [112; 110; 103]%N) 3 [112; 110; 103]%N
+          [105; 109; 97; 103; 101; 47; 112; 110; 103]%N 0 0);
+    Ok (OutStore [image_partname 2 [112; 110; 103]%N]);
+    Ok (OutImg 4 (image_partname 1 [103; 105; 102]%N) 2 [103; 105; 102]%N
+          [105; 109; 97; 103; 101; 47; 103; 105; 102]%N 0 0);
+    Ok OutUnit;
+    Ok (OutImg 3 (image_partname 2 [112; 110; 103]%N) 3 [112; 110; 103]%N
+          [105; 109; 97; 103; 101; 47; 112; 110; 103]%N 0 0);
+    Ok (OutImg 5 (image_partname 3 [106; 112; 103]%N) 4 [106; 112; 103]%N
+          [105; 109; 97; 103; 101; 47; 106; 112; 101; 103]%N 0 0) ]
+  /\ map p_id (st_heap (fst r)) = [3; 4; 5]%N
+  /\ map p_name (store (fst r)) =
+     [image_partname 2 [112; 110; 103]%N; image_partname 1 [103; 105; 102]%N; image_partname 3 [106; 112; 103]%N].
+Proof. vm_compute. repeat split; reflexivity. Qed.
+
+(** the hypotheses of C15_once / C15_distinct / C15_orphan_stays are met by it: the PNG
+    object of operation 6 and the GIF object of operation 8 are still related at the end;
+    the PNG object of operation 2 (identity 1) is an orphan after operation 4 *)
+Example C15_ex_removal_hyps :
+  stored_at (fun b => b) fl64 empty_state ex_ops_removal 6 ex_png 3 (image_partname 2 [112; 110; 103]%N)
+    [112; 110; 103]%N [105; 109; 97; 103; 101; 47; 112; 110; 103]%N /\
+  stored_at (fun b => b) fl64 empty_state ex_ops_removal 8 ex_gif 4 (image_partname 1 [103; 105; 102]%N)
+    [103; 105; 102]%N [105; 109; 97; 103; 101; 47; 103; 105; 102]%N /\
+  still_related (fun b => b) fl64 empty_state ex_ops_removal 3 /\
+  still_related (fun b => b) fl64 empty_state ex_ops_removal 4 /\
+  (let st5 := final (fun b => b) fl64 empty_state (firstn 5 ex_ops_removal) in
+   exists p, In p (st_heap st5) /\ p_id p = 1%N /\ reachable (st_slides st5) p = false /\
+             removal (ODelSlide 0) = true).
+Proof.
+  split; [|split; [|split; [|split]]].
+  - unfold stored_at; do 5 eexists; (split; [vm_compute; reflexivity|vm_compute; reflexivity]).
+  - unfold stored_at; do 5 eexists; (split; [vm_compute; reflexivity|vm_compute; reflexivity]).
+  - unfold still_related; vm_compute; tauto.
+  - unfold still_related; vm_compute; tauto.
+  - eexists. split; [vm_compute; left; reflexivity|]. vm_compute. auto.
 Qed.
 
 Example C15_ex_dpi :
